@@ -355,6 +355,20 @@ macro_rules! field_impl {
                         }.into(),
                         None => "bad-op".into(),
                     },
+                    ("const", [name]) => match *name {
+                        "ZERO" => out(&F::ZERO),
+                        "ONE" => out(&F::ONE),
+                        "MULTIPLICATIVE_GENERATOR" => out(&F::MULTIPLICATIVE_GENERATOR),
+                        "TWO_ADIC_ROOT_OF_UNITY" => out(&F::TWO_ADIC_ROOT_OF_UNITY),
+                        "FIELD_SIZE_POWER_OF_TWO" => out(&F::FIELD_SIZE_POWER_OF_TWO),
+                        "MODULUS_LIMBS" => F::MODULUS_LIMBS.iter().map(|v| v.to_string()).collect::<Vec<_>>().join(","),
+                        "MODULUS_MINUS_ONE_DIV_TWO_LIMBS" => F::MODULUS_MINUS_ONE_DIV_TWO_LIMBS.iter().map(|v| v.to_string()).collect::<Vec<_>>().join(","),
+                        "TRACE_LIMBS" => F::TRACE_LIMBS.iter().map(|v| v.to_string()).collect::<Vec<_>>().join(","),
+                        "TRACE_MINUS_ONE_DIV_TWO_LIMBS" => F::TRACE_MINUS_ONE_DIV_TWO_LIMBS.iter().map(|v| v.to_string()).collect::<Vec<_>>().join(","),
+                        "MODULUS_BIT_SIZE" => F::MODULUS_BIT_SIZE.to_string(),
+                        "TWO_ADICITY" => F::TWO_ADICITY.to_string(),
+                        other => extra_const::<F>(other),
+                    },
                     ("srz", [a, c]) => match (fe(a), fe(c)) {
                         (Some(x), Some(y)) => srz(x, y),
                         _ => "bad-op".into(),
@@ -422,6 +436,32 @@ pub fn power<T: dispatch::Extra>(x: T, l: Vec<u64>) -> String { T::power(x, l) }
 pub fn select<T: dispatch::Extra>(x: T, y: T, c: bool) -> String { T::select(x, y, c) }
 pub fn cteq<T: dispatch::Extra>(x: T, y: T) -> String { T::cteq(x, y) }
 pub fn srz<T: dispatch::Extra>(x: T, y: T) -> String { T::srz(x, y) }
+
+/// constants that exist only for some of the fields
+pub trait ExtraConst: Sized {
+    fn get(_name: &str) -> String { "unsupported".into() }
+}
+impl ExtraConst for Fq {
+    fn get(name: &str) -> String {
+        match name {
+            "QUADRATIC_NON_RESIDUE_TO_TRACE" => fq::out(&Fq::QUADRATIC_NON_RESIDUE_TO_TRACE),
+            "ZETA" => fq::out(&decaf377::ZETA),
+            _ => "unsupported".into(),
+        }
+    }
+}
+impl ExtraConst for Fr {}
+impl ExtraConst for Fp {
+    fn get(name: &str) -> String {
+        match name {
+            "QUADRATIC_NON_RESIDUE_TO_TRACE" => fp::out(&Fp::QUADRATIC_NON_RESIDUE_TO_TRACE),
+            "MINUS_ONE" => fp::out(&Fp::MINUS_ONE),
+            "QUADRATIC_NON_RESIDUE" => fp::out(&Fp::QUADRATIC_NON_RESIDUE),
+            _ => "unsupported".into(),
+        }
+    }
+}
+pub fn extra_const<T: ExtraConst>(name: &str) -> String { T::get(name) }
 
 pub fn exec_field(fld: &str, op: &str, form: &str, args: &[&str]) -> String {
     match fld {
